@@ -21,4 +21,12 @@ theorem regexes_unchanged : Generated.jtpRegexes =
      "^(?i:content-type):[ \\t\\r]*(.*?)[ \\t\\r]*\\n$",
      "^(?i:location):[ \\t\\r]*(.*?)[ \\t\\r]*\\n$"] := by decide
 
+/-- The status line and every header line are read with `ReadString('\n')` on one buffered
+    reader — whole lines of any length, as `Jtp.splitHeaders` models them — and the JSON decoder
+    continues on the same reader. -/
+theorem reads_whole_lines : Generated.jtpReads =
+    ["bufio.NewReader(connection)", "buf.ReadString('\\n')", "json.NewDecoder(buf)",
+     "buf.ReadString('\\n')", "buf.ReadString('\\n')"] := by decide
+
 end Facts03
+
